@@ -90,9 +90,13 @@ pub fn run_worker<P: Property>(a: WorkerArgs) -> ! {
                 res.harness_errors.push(format!("case {index}: deviation `{}` was observed once and not reproduced in three re-runs of the same case (inconclusive): {}", f.key, f.detail.chars().take(300).collect::<String>()));
                 continue;
             }
-            let tree = new_tree::<P>(&strategy, a.seed, index);
-            let (min_case, min_f, _) = shrink(&p, tree, &f.key);
-            let (min_case, min_f) = reduce_structurally(&p, min_case, &f.key, min_f);
+            let (min_case, min_f) = if std::env::var("VERIF_NO_SHRINK").is_ok() {
+                (case.clone(), f.clone())
+            } else {
+                let tree = new_tree::<P>(&strategy, a.seed, index);
+                let (min_case, min_f, _) = shrink(&p, tree, &f.key);
+                reduce_structurally(&p, min_case, &f.key, min_f)
+            };
             res.violations.push(ReplayFile {
                 property: P::ID.into(),
                 key: min_f.key,
